@@ -942,7 +942,8 @@ func doCheck(prop, tier string, seed uint64, nworkers, maxSec int, noMin bool) i
 		"worker_deaths":          len(all.crashes),
 		"known_findings_hit":     len(knownHits),
 		"index_range_complete":   complete,
-		"exhaustive_subspaces":   tot.Exhaustive,
+		"cases_by_kind":          tot.Exhaustive,
+		"exhaustive_subspaces":   exhaustiveSpaces(prop, tier, len(lanes), tot.Exhaustive),
 		"exhaustive":             false,
 		"race_lane":              raceEvidence(prop, race),
 		"real_code":              []string{"parser (lexer, goyacc tables, grammar actions)", "interp (Eval, Expand, ExecEnv)", "printer", "ast", "pattern"},
